@@ -241,7 +241,8 @@ func BuildProfile(a rm.Vals, aux Aux) types.TimeProfile {
 	}
 	if aux.ExtraKeys {
 		p.Segments[0] = types.Segment{Start: types.NewHHmm(1, 2), End: types.NewHHmm(3, 4)}
-		p.Segments[4] = types.Segment{Start: types.NewHHmm(5, 6), End: types.NewHHmm(7, 8)}
+		p.Segments[4] = types.Segment{Start: types.NewHHmm(7, 8), End: types.NewHHmm(5, 6)} // (ends before it starts: not a segment of the profile, not anybody's business)
+		p.Segments[200] = types.Segment{Start: types.NewHHmm(23, 0), End: types.NewHHmm(1, 0)}
 	}
 	return p
 }
